@@ -252,7 +252,8 @@ def check_run(res, case):
 
     if slow_stages:
         _, lo, hi, _ = slow_stages[-1]
-        pts = [rec[(c, it)]["pos"] for c in range(n_chain) for it in range(lo + 1, hi + 1)]
+        # positions as the adapted transition left them (a later transition of the same iteration may move on)
+        pts = [integ[(c, it)]["pos_after"] for c in range(n_chain) for it in range(lo, hi)]
         covar = cfg["adapters"] == "step+covar"
         est = pooled_reference(pts, covar)
         m = len(pts)
